@@ -71,8 +71,12 @@ Definition text_verdict (c : tcase) : Z * Z * Z :=
   | Some it => (first_text_diff m it 0, oracle ts it, oracle ts m)
   end.
 
-(* number literals: (bits as float, literal as printed by Rust): 0 ok, 1 literal malformed, 2 reads back differently *)
+(* the two hypotheses the theorems make about Rust's Display for f64, checked on a sampled number:
+   (bits as float, literal as printed by Rust): 0 ok, 1 not a plain decimal literal, 2 reads back differently *)
+Definition wf_num_b (w : text) : bool :=
+  match w with c :: w' => (is_digit c || N.eqb c 45 || N.eqb c 46) && forallb is_num_char w' | [] => false end.
 Definition num_verdict (c : float * text) : Z :=
+  if negb (wf_num_b (snd c)) then 1 else
   match dec_to_f64 (snd c) with
   | None => 1
   | Some f => if Base.NumF.F_bits_eq f (fst c) then 0 else 2
